@@ -194,6 +194,71 @@ func c13Crash(length, shard, nshards int, everyByteMod int) vh.Unit {
 	}}
 }
 
+// validation of the truncation model: really kill the child after operation k and compare the
+// directory with the image computed from the full run (value log cut at the size recorded at k).
+func c13ModelValidation() vh.Unit {
+	return vh.Unit{Name: "truncation-model-validation", Run: func(u *vh.U) {
+		hists := [][]string{
+			{"set a hg", "addnb a 5", "link W1 a", "addab W1 -7"},
+			{"set a hg", "set b cl", "upd a b 7", "nonce a n"},
+			{"set b cl", "addnb b 5", "link W1 b", "upd b b 1"},
+		}
+		for _, ops := range hists {
+			base := vh.Scratch("c13v-")
+			func() {
+				defer os.RemoveAll(base)
+				full := filepath.Join(base, "full")
+				os.MkdirAll(full, 0700)
+				run, err := vh.RunCrashChild(full, ops)
+				if err != nil {
+					u.R.Infra = err.Error()
+					return
+				}
+				for k := 1; k <= len(ops); k++ {
+					part := filepath.Join(base, fmt.Sprintf("part%d", k))
+					os.MkdirAll(part, 0700)
+					runk, err := vh.RunCrashChild(part, ops[:k])
+					if err != nil {
+						u.R.Infra = err.Error()
+						return
+					}
+					u.R.Evaluations++
+					u.R.States++
+					u.R.Transitions++
+					u.R.Traces++
+					want := vh.VlogSize(run.Marks[k])
+					got := vh.VlogSize(runk.Marks[k])
+					// the really killed directory must have a value log of exactly the recorded size and,
+					// reopened, hold exactly what the computed image holds (the file header carries a
+					// random IV, so the comparison is on content, not on raw bytes)
+					img := filepath.Join(base, fmt.Sprintf("img%d", k))
+					vh.MakeImage(full, img, run.Marks[k], -1)
+					dumpOf := func(dir string) string {
+						st, _, err := vh.OpenRecovered(dir)
+						if err != nil {
+							return "open failed: " + err.Error()
+						}
+						defer st.Close()
+						return vh.BadgerDump(st)
+					}
+					killedDir := filepath.Join(base, fmt.Sprintf("killed%d", k))
+					vh.MakeImage(part, killedDir, runk.Marks[k], -1)
+					same := got == want && dumpOf(img) == dumpOf(killedDir)
+					os.RemoveAll(img)
+					os.RemoveAll(killedDir)
+					u.Observe(fmt.Sprintf("k=%d size=%d same=%v", k, want, same))
+					if !same {
+						u.Violate("crash/truncation-model-invalid", fmt.Sprintf("history %v: a child really killed after operation %d left a %d-byte value log; the full run recorded %d bytes at that point (prefix identical: %v) - the crash-image model does not describe this badger version", ops, k, got, want, same), nil)
+						return
+					}
+					os.RemoveAll(part)
+				}
+			}()
+		}
+		u.Sample("children really SIGKILLed after each prefix of 3 histories; value logs compared byte by byte with the computed images")
+	}}
+}
+
 // (d) concurrent readers never observe a half-applied multi-key operation
 func c13Readers(writer string, bound int) vh.Unit {
 	name := "concurrent-readers/" + strings.Fields(writer)[0]
@@ -429,7 +494,7 @@ func init() {
 			if tier == "thorough" {
 				bound = 3
 			}
-			us = append(us, c13Readers("link W1 a", bound), c13Readers("upd a b 9", bound), c13Migration())
+			us = append(us, c13Readers("link W1 a", bound), c13Readers("upd a b 9", bound), c13Migration(), c13ModelValidation())
 			return us
 		},
 	})
